@@ -30,3 +30,10 @@ mod regex;
 pub use crate::analyze_string::{AnalyzeEntry, MatchEntry};
 pub use crate::re_compiler::Error;
 pub use crate::regex::Regex;
+
+/// Verification hooks (only compiled with `--cfg regexml_verif`): a
+/// deterministic step budget ("fuel"), per-site counters and an optional
+/// scheduling callback invoked at every engine step.
+#[cfg(regexml_verif)]
+#[doc(hidden)]
+pub mod verif;
